@@ -52,8 +52,29 @@ fn honest_scenario(rng: &mut StdRng, sc: usize, out: Box<dyn std::io::Write>, kv
     let main_len = rng.gen_range(1..=max_len);
     let last_n = *[1u64, 2, 3, 5, 10][..].get(rng.gen_range(0..5)).unwrap();
     let npeers = rng.gen_range(1..=3usize);
-    let forks = if main_len > 3 { rng.gen_range(0..=2usize) } else { 0 };
-    let built = build_world(rng, pow, main_len, forks, (last_n as usize).saturating_sub(1).max(1), true);
+    // C05 is about forks shallower than last-N: every block above the lowest fork point must be
+    // within last_n of it, whichever branch the client currently follows.
+    let mut built;
+    let mut tries = 0;
+    loop {
+        let forks = if main_len > 3 && last_n >= 2 { rng.gen_range(0..=2usize) } else { 0 };
+        let forks = if tries > 20 { 0 } else { forks };
+        built = build_world(rng, pow, main_len, forks, ((last_n as usize) / 2).max(1), true);
+        tries += 1;
+        let c = &built.chain;
+        let lowest_fork = (0..c.blocks.len())
+            .filter(|b| c.children_of(*b).len() > 1)
+            .map(|b| c.blocks[b].num)
+            .min();
+        match lowest_fork {
+            None => break,
+            Some(g) => {
+                if built.leaves.iter().all(|l| c.blocks[*l].num - g <= last_n) {
+                    break;
+                }
+            }
+        }
+    }
     let cfg = Config {
         last_n,
         max_outbound: npeers as u32,
@@ -88,12 +109,14 @@ fn honest_scenario(rng: &mut StdRng, sc: usize, out: Box<dyn std::io::Write>, kv
             }
             18..=37 => {
                 if env.peers[i].connected {
-                    env.send_last_state(&mut sim, i)
+                    env.send_last_state(&mut sim, i);
+                    env.enforce_bans(&mut sim);
                 }
             }
             38..=62 => {
                 if env.peers[i].connected {
                     env.answer_proof(&mut sim, i);
+                    env.enforce_bans(&mut sim);
                 }
             }
             63..=77 => env.refresh(&mut sim),
@@ -127,9 +150,10 @@ fn honest_scenario(rng: &mut StdRng, sc: usize, out: Box<dyn std::io::Write>, kv
         let mut any = false;
         for _ in 0..4 {
             for i in 0..npeers {
-                while env.answer_proof(&mut sim, i) {
+                while env.peers[i].connected && env.answer_proof(&mut sim, i) {
                     any = true;
                     conv_bans += sim.last_bans.len();
+                    env.enforce_bans(&mut sim);
                 }
             }
         }
@@ -143,18 +167,77 @@ fn honest_scenario(rng: &mut StdRng, sc: usize, out: Box<dyn std::io::Write>, kv
                 any = true;
             }
         }
-        if !any {
-            quiet += 1;
-            if quiet >= 2 {
-                break;
-            }
-        } else {
-            quiet = 0;
-        }
+        let _ = (any, &mut quiet);
     }
     // Quiescent: the stored tip must be a heaviest announced tip
     let tips_now: Vec<usize> = env.peers.iter().map(|p| p.server.tip + 1).collect();
     sim.step("Quiescent", json!({"tips": tips_now, "bans": conv_bans}), |_| Ok(()));
+    let lines = sim.lines;
+    let panics = sim.panics.clone();
+    let out = std::mem::replace(&mut sim.out, Box::new(std::io::sink()));
+    (out, lines, panics)
+}
+
+/// C12: after an honest sync the peer announces a self-made child of the proven tip whose chain
+/// root claims an arbitrary total difficulty; then honest peers continue.
+fn tip_scenario(rng: &mut StdRng, sc: usize, out: Box<dyn std::io::Write>, _kv: &HashMap<String, String>) -> (Box<dyn std::io::Write>, u64, Vec<String>) {
+    let pow = if rng.gen_bool(0.5) { "eaglesong" } else { "dummy" };
+    let main_len = rng.gen_range(4..=30usize);
+    let last_n = *[2u64, 3, 5][..].get(rng.gen_range(0..3)).unwrap();
+    let built = build_world(rng, pow, main_len, 0, 1, true);
+    let cfg = Config { last_n, max_outbound: 2, ..Default::default() };
+    let leaf = built.leaves[0];
+    let mut sim: Sim = new_sim(built.chain, cfg, 2, out, &format!("tip-{}", sc), vec!["peersync"]);
+    // peer 1 (deviating) and peer 2 (honest) both start a few blocks below the leaf
+    let n = sim.chain.blocks[leaf].num;
+    let start = sim.chain.ancestor_at(leaf, n.saturating_sub(rng.gen_range(1..=3)).max(1)).unwrap();
+    // register the forged children before Reset so that the world in the trace contains them
+    let honest_td = sim.chain.blocks[start].td.clone();
+    let variants: Vec<ckb_types::U256> = vec![
+        &honest_td - 1u32,
+        &honest_td + 1u32,
+        &honest_td * 2u32,
+        ckb_types::U256::from(1u64 << 30),
+    ];
+    let claimed = variants[rng.gen_range(0..variants.len())].clone();
+    let forged = sim.chain.forge_child(start, claimed);
+    let mut env = Env::new(&sim, &[(start, leaf), (start, leaf)]);
+    sim.reset(json!({"mode": "tip"}));
+    // honest sync of both peers to `start`
+    for i in 0..2 {
+        env.connect(&mut sim, i);
+        env.send_last_state(&mut sim, i);
+        while env.answer_proof(&mut sim, i) {}
+    }
+    if rng.gen_bool(0.3) {
+        env.restart(&mut sim);
+        for i in 0..2 {
+            env.connect(&mut sim, i);
+            env.send_last_state(&mut sim, i);
+            while env.answer_proof(&mut sim, i) {}
+        }
+    }
+    // the deviating peer announces the forged child
+    env.send_last_state_of(&mut sim, 0, forged);
+    env.enforce_bans(&mut sim);
+    if rng.gen_bool(0.5) {
+        env.restart(&mut sim);
+    }
+    // the honest peer goes on
+    for _ in 0..6 {
+        if !env.peers[1].connected {
+            env.connect(&mut sim, 1);
+        }
+        env.grow(&sim, 1, 2);
+        env.send_last_state(&mut sim, 1);
+        env.refresh(&mut sim);
+        while env.peers[1].connected && env.answer_proof(&mut sim, 1) {
+            env.enforce_bans(&mut sim);
+        }
+        sim.advance(1);
+    }
+    let tips_now: Vec<usize> = vec![env.peers[1].server.tip + 1];
+    sim.step("Quiescent", json!({"tips": tips_now, "bans": 0}), |_| Ok(()));
     let lines = sim.lines;
     let panics = sim.panics.clone();
     let out = std::mem::replace(&mut sim.out, Box::new(std::io::sink()));
@@ -173,6 +256,7 @@ pub fn run(kv: &HashMap<String, String>) -> i32 {
         let mut rng = StdRng::seed_from_u64(seed.wrapping_mul(1_000_003).wrapping_add(sc as u64));
         let (o, lines, p) = match mode.as_str() {
             "honest" => honest_scenario(&mut rng, sc, out, kv),
+            "tip" => tip_scenario(&mut rng, sc, out, kv),
             _ => {
                 eprintln!("unknown mode {}", mode);
                 return 2;
